@@ -149,31 +149,33 @@ structure IPVState where
 def setPort (ps : List Port) (p : Port) : List Port :=
   if ps.any (·.name = p.name) then ps.map (fun q => if q.name = p.name then p else q) else ps ++ [p]
 
+/-- the body of the loop over the (sorted) non-output ports -/
+def ipvStep (r : Routine) (st : IPVState) (port : Port) : Except Err IPVState := do
+  let vname := "#" ++ port.name
+  let v := Expr.sym vname
+  let st ← (match port.size with
+    | .sym s =>
+      if s ≠ vname then
+        (match st.addLocals.get? s with
+         | none => pure { st with addLocals := st.addLocals.set s v }
+         | some w => pure { st with addCons := st.addCons ++ [⟨v, w, .inconclusive⟩] })
+      else pure st
+    | size =>
+      match size.constInt? with
+      | some _ => pure { st with addCons := st.addCons ++ [⟨v, size, .inconclusive⟩] }
+      | none =>
+        let missing := (Expr.fv size).filter fun s =>
+          !r.inputParams.contains s && !r.localVars.contains s && !st.addLocals.contains s
+        if !missing.isEmpty then
+          throw (Err.preprocessing s!"Size of the port {port.name} depends on undefined symbols")
+        else
+          let newSize := Expr.subst st.addLocals size
+          pure { st with addCons := st.addCons ++ [⟨v, newSize, .inconclusive⟩] } : Except Err IPVState)
+  pure { st with newPorts := setPort st.newPorts { port with size := v }, newInputs := st.newInputs ++ [vname] }
+
 def introducePortVariablesStep (r : Routine) : Except Err Routine := do
   let nonOut := sortBy portKeyLt (Port.portsOf r.ports [.input, .through])
-  let st ← nonOut.foldlM (fun (st : IPVState) port => do
-    let vname := "#" ++ port.name
-    let v := Expr.sym vname
-    let st ← (match port.size with
-      | .sym s =>
-        if s ≠ vname then
-          (match st.addLocals.get? s with
-           | none => pure { st with addLocals := st.addLocals.set s v }
-           | some w => pure { st with addCons := st.addCons ++ [⟨v, w, .inconclusive⟩] })
-        else pure st
-      | size =>
-        match size.constInt? with
-        | some _ => pure { st with addCons := st.addCons ++ [⟨v, size, .inconclusive⟩] }
-        | none =>
-          let missing := (Expr.fv size).filter fun s =>
-            !r.inputParams.contains s && !r.localVars.contains s && !st.addLocals.contains s
-          if !missing.isEmpty then
-            throw (Err.preprocessing s!"Size of the port {port.name} depends on undefined symbols")
-          else
-            let newSize := Expr.subst st.addLocals size
-            pure { st with addCons := st.addCons ++ [⟨v, newSize, .inconclusive⟩] } : Except Err IPVState)
-    pure { st with newPorts := setPort st.newPorts { port with size := v }, newInputs := st.newInputs ++ [vname] })
-    ({} : IPVState)
+  let st ← nonOut.foldlM (ipvStep r) ({} : IPVState)
   pure { r with
     ports := (Port.portsOf r.ports [.output]).foldl setPort st.newPorts,
     inputParams := r.inputParams ++ st.newInputs,
